@@ -17,6 +17,7 @@ import (
 	"bufio"
 	"fmt"
 	"os"
+	"runtime/debug"
 	"sort"
 	"strings"
 
@@ -29,6 +30,9 @@ import (
 )
 
 func main() {
+	// the evaluator's memory guard is relative to the Go memory limit (README: GOMEMLIMIT=1GiB): without one a
+	// single `0:4294967296` makes the process die of a fatal out-of-memory error instead of ending in a panic value
+	debug.SetMemoryLimit(1 << 30)
 	if err := extensions.Init(nil); err != nil {
 		panic(err)
 	}
